@@ -63,16 +63,20 @@ def run(ctx):
         if rd.get("ms", 0) > 5000:
             ctx.violation("slow:4-manifests", "reading a 4-manifest graph took %d ms" % rd["ms"], case)
     # chains around nothing (quick) / around the depth limit (thorough), and large random graphs
-    plans = [(40, "random", 300)] if ctx.quick else [(206, "chain", 1500), (300, "random", 2400)]
+    plans = [(40, "random", 300), (200, "shortcut", 900)] if ctx.quick else [(206, "chain", 1500), (300, "random", 2400), (200, "shortcut", 900)]
     bigstats = []
     for n, mode, budget in plans:
         recs = big(ctx, n, mode, budget)
         for r in recs:
             if r["e"] == "built":
-                if r["depth"] <= 150 and r["state"] != "Trusted":
+                if r["depth"] <= 150 and r["state"] != "Trusted" and mode != "shortcut":
                     ctx.violation("chain-not-valid:%d" % r["depth"], "a legitimately built chain of %d manifests is reported %s" % (r["depth"], r["state"]), r)
                 if r["depth"] >= 205 and mode == "chain" and r["state"] in ("Valid", "Trusted"):
                     ctx.violation("over-deep-chain-valid", "a chain of %d manifests (limit 200) is reported %s" % (r["depth"], r["state"]), r)
+            if r["e"] == "shortcut":
+                bigstats.append({"manifests": r["chain"] + 1, "kind": "shortcut", "result": r["state"]})
+                if r["state"] in ("Valid", "Trusted"):
+                    ctx.violation("over-deep-chain-valid:shortcut", "a root whose first ingredient is the far end of a %d-manifest chain and whose second is its near end (the far end is met again %d levels down) is reported %s" % (r["chain"], r["chain"], r["state"]), r)
             if r["e"] == "read":
                 rd = r["read"]
                 bigstats.append({"manifests": r["manifests"], "kind": r["kind"], "ms": rd.get("ms"), "result": rd.get("state") or rd.get("err") or "panic"})
